@@ -20,7 +20,8 @@ def main():
     pid, v = sys.argv[1], sys.argv[2]
     checks = sys.argv[3:] or [pid]
     src = f"/tmp/seeds/{pid}/{v}"
-    wt = f"/tmp/m-{pid}"
+    wt = os.environ.get("SEED_WT") or (f"/tmp/m-{pid}" if v in "AB" else f"/tmp/m2-{pid}")
+    via_wt = os.environ.get("SEEDEVAL_VIA_WORKTREE") == "1"
     dst = os.path.join(VERIF, "seeded", f"{pid}-{v}")
     os.makedirs(dst, exist_ok=True)
     for f in ("patch.diff", "demo.py", "README.md"):
@@ -50,20 +51,30 @@ def main():
             rc2, out2 = sh(f"timeout 300 /venv/bin/python -m pytest -q -p no:cacheprovider {t} 2>&1 | tail -1", cwd=wt, env=env)
             rerun[t] = out2.strip()
         meta["suite_with_change"] = {"summary": out.strip().split("\n")[-1], "failed": failed, "rerun_alone": rerun}
-    sh("git checkout -- .", cwd=wt)
-    # 4. our checks against /repo
-    rc, out = sh("git diff --quiet", cwd="/repo")
-    if rc != 0:
-        print("/repo is dirty; refusing"); sys.exit(2)
-    results = {}
-    if meta.get("patch_applies"):
-        rc, out = sh(f"git apply {dst}/patch.diff || git apply --3way {dst}/patch.diff", cwd="/repo")
+    if not via_wt:
+        sh("git checkout -- .", cwd=wt)
+    # 4. our checks against /repo — or, while other checks are running against /repo, against the scratch
+    #    worktree (same HEAD as /repo, patch applied) through TBOT_VERIF_REPO; no evidence is written then
+    target = wt if via_wt else "/repo"
+    meta["checks_ran_against"] = ("scratch worktree at /repo's HEAD with the patch applied (TBOT_VERIF_REPO)" if via_wt
+                                  else "/repo with the patch applied (git apply), restored afterwards")
+    if not via_wt:
+        rc, out = sh("git diff --quiet", cwd="/repo")
         if rc != 0:
-            sh("git checkout -- . ; git reset -q", cwd="/repo")
-            print("patch does not apply to /repo:", out[-200:]); sys.exit(2)
+            print("/repo is dirty; refusing"); sys.exit(2)
+    results = {}
+    cenv = dict(os.environ)
+    if via_wt:
+        cenv.update(TBOT_VERIF_REPO=wt, TBOT_VERIF_NOEVIDENCE="1", VERIF_SEED="7")
+    if meta.get("patch_applies"):
+        if not via_wt:
+            rc, out = sh(f"git apply {dst}/patch.diff || git apply --3way {dst}/patch.diff", cwd="/repo")
+            if rc != 0:
+                sh("git checkout -- . ; git reset -q", cwd="/repo")
+                print("patch does not apply to /repo:", out[-200:]); sys.exit(2)
         try:
             for c in checks:
-                rc, out = sh(f"timeout 1200 ./check {c}", cwd=VERIF)
+                rc, out = sh(f"timeout 1200 ./check {c}", cwd=VERIF, env=cenv)
                 lines = [l for l in out.split("\n") if "VIOLATION" in l or "tier=" in l or "proofs:" in l]
                 replay = None
                 m = re.search(r"replay=(\S+)", out)
@@ -72,7 +83,7 @@ def main():
                     replay = {k: (str(rp.get(k))[:400]) for k in ("kind", "case", "impl_obs", "model_obs", "broken_theorems") if k in rp}
                 results[c] = {"exit": rc, "lines": lines, "replay": replay}
         finally:
-            sh("git checkout -- .", cwd="/repo")
+            sh("git checkout -- .", cwd=target)
     meta["checks"] = results
     meta["caught_by"] = [c for c, r in results.items() if r["exit"] == 1 and any("VIOLATION" in l and "no-failing-input-found" not in l for l in r["lines"])]
     meta["flagged_without_input_by"] = [c for c, r in results.items() if r["exit"] == 1 and any("no-failing-input-found" in l for l in r["lines"])]
